@@ -18,6 +18,7 @@ RULE = (
     "Non-trivial = history re-memoizes a live key, re-adds a forgotten key, stores an oversize/cache-filling value, "
     "looks up an absent key before a listing, or has prefix-related names live together; distinct by op-kind sequence."
     " Round 5: a third of the histories build their stores from a configuration dict that was used before for another (decoy) store holding results for the same calls, and whose path / cache size the keyword arguments override; values include partitions."
+    " Round 6: custom metadata keys, override keys with glob metacharacters; calls with structured / date-time arguments (aware non-UTC, naive, date, nested dictionary, float); a 150-row frame whose sampled size estimate scatters around the budget."
 )
 ASSUMPTIONS = [
     "single process, no concurrent writers; str size classes use sys.getsizeof("")+n of the running interpreter",
